@@ -34,6 +34,15 @@ CLAIMED['C18'] = dict(
          'sigma^2 = ||Q||^2/(snr*size) and mean 0 to the generator and adds exactly what it draws.',
     ref='3/C18')
 
+CLAIMED['C15'] = dict(
+    text='For shapes <= 3x3 with symbolic entries: every Frobenius entry point (unified interface in all spellings, dense/sparse, legacy component '
+         'and quaternion forms incl. the 1-D branch, tensor norm) has the same squared value sum|a_ij|^2, is non-negative and absolutely homogeneous; '
+         'the induced 1-/inf-norms equal max column/row sums of moduli on every comparison path of their loops (one sqrt atom per entry), '
+         '||A^H||_1 = ||A||_inf; the dispatcher accepts exactly ord in {None,fro,F,1,2,inf} (a symbolic numeric ord and 14 wrong spellings are '
+         'rejected with ValueError); the spectral norm is the largest value the Q-SVD returns (stub); dual norm = documented formula; '
+         'triangle inequality / sub-multiplicativity on the tiny shapes listed (thorough).',
+    ref='3/C15')
+
 NOT_YET = {}
 
 NA = {
